@@ -632,4 +632,100 @@ theorem findCallbacks_bare (c : DispCfg) (cmd : Str) (rest args0 : List Str)
     rw [heq] at himp
     simp at himp
   · rfl
+
+/-! ### canonicalName is idempotent (so the `assert args == map(canonicalName, args)` of getCommand holds) -/
+
+theorem toNat_ofNat_small (n : Nat) (h : n < 0xD800) : (Char.ofNat n).toNat = n := by
+  have hv : n.isValidChar := Or.inl h
+  rw [Char.ofNat, dif_pos hv]
+  simp [Char.ofNatAux, Char.toNat]
+
+theorem asciiLowerChar_cases (c : Char) :
+    (asciiLowerChar c = c ∧ ¬ ('A' ≤ c ∧ c ≤ 'Z')) ∨
+    (('A' ≤ c ∧ c ≤ 'Z') ∧ 97 ≤ (asciiLowerChar c).toNat ∧ (asciiLowerChar c).toNat ≤ 122) := by
+  unfold asciiLowerChar
+  by_cases h : 'A' ≤ c ∧ c ≤ 'Z'
+  · right
+    rw [if_pos h]
+    refine ⟨h, ?_⟩
+    have h1 : 65 ≤ c.toNat := by have := h.1; rw [Char.le_def] at this; exact this
+    have h2 : c.toNat ≤ 90 := by have := h.2; rw [Char.le_def] at this; exact this
+    rw [toNat_ofNat_small _ (by omega)]
+    omega
+  · left; rw [if_neg h]; exact ⟨rfl, h⟩
+
+/-- what `canonicalName_idem` needs from the extracted string: no ASCII letter is "special" -/
+def SpecialOk (sp : Str) : Prop := ∀ c ∈ sp, ¬ (65 ≤ c.toNat ∧ c.toNat ≤ 90) ∧ ¬ (97 ≤ c.toNat ∧ c.toNat ≤ 122)
+
+instance (sp : Str) : Decidable (SpecialOk sp) := by unfold SpecialOk; infer_instance
+
+theorem takeWhile_append_all {α : Type} (p : α → Bool) : ∀ (l1 l2 : List α), (∀ a ∈ l1, p a = true) →
+    (∀ a ∈ l2, p a = false) → (l1 ++ l2).takeWhile p = l1 ∧ (l1 ++ l2).dropWhile p = l2
+  | [], l2, _, h2 => by
+    cases l2 with
+    | nil => simp
+    | cons b l => simp [h2 b (by simp)]
+  | a :: l1, l2, h1, h2 => by
+    have := takeWhile_append_all p l1 l2 (fun b hb => h1 b (by simp [hb])) h2
+    simp [h1 a (by simp), this.1, this.2]
+
+theorem mem_takeWhile_true {α : Type} (p : α → Bool) : ∀ (l : List α) (a : α), a ∈ l.takeWhile p → p a = true
+  | [], _, h => by simp at h
+  | b :: l, a, h => by
+    rw [List.takeWhile] at h
+    cases hb : p b with
+    | false => simp [hb] at h
+    | true =>
+      simp only [hb] at h
+      rcases List.mem_cons.1 h with rfl | h
+      · exact hb
+      · exact mem_takeWhile_true p l a h
+
+theorem canonicalName_split (x t : Str) (hx : ∀ c ∈ x, isSpecial c = false) (ht : ∀ c ∈ t, isSpecial c = true) :
+    canonicalName (x ++ t) = asciiLower x ++ t := by
+  unfold canonicalName
+  have h := takeWhile_append_all isSpecial t.reverse x.reverse (by simpa using ht) (by simpa using hx)
+  simp only [List.reverse_append, h.1, h.2, List.reverse_reverse]
+  congr 2
+  rw [List.filter_eq_self]
+  intro c hc; simp [hx c hc]
+
+theorem isSpecial_lower (hsp : SpecialOk Gen.canonicalSpecial) (d : Char) (hd : isSpecial d = false) :
+    isSpecial (asciiLowerChar d) = false := by
+  rcases asciiLowerChar_cases d with ⟨h, _⟩ | ⟨_, h1, h2⟩
+  · rw [h]; exact hd
+  · cases hs : isSpecial (asciiLowerChar d) with
+    | false => rfl
+    | true =>
+      have hm : asciiLowerChar d ∈ Gen.canonicalSpecial := by simpa [isSpecial] using hs
+      exact absurd ⟨h1, h2⟩ (hsp _ hm).2
+
+theorem asciiLowerChar_idem (d : Char) : asciiLowerChar (asciiLowerChar d) = asciiLowerChar d := by
+  rcases asciiLowerChar_cases d with ⟨h, _⟩ | ⟨_, h1, h2⟩
+  · rw [h, h]
+  · generalize asciiLowerChar d = e at h1 h2
+    unfold asciiLowerChar
+    rw [if_neg]
+    intro ⟨_, hz⟩
+    rw [Char.le_def] at hz
+    have : e.toNat ≤ 90 := hz
+    omega
+
+theorem canonicalName_idem' (hsp : SpecialOk Gen.canonicalSpecial) (s : Str) :
+    canonicalName (canonicalName s) = canonicalName s := by
+  have hcn : canonicalName s =
+      asciiLower ((s.reverse.dropWhile isSpecial).reverse.filter fun c => !isSpecial c) ++
+        (s.reverse.takeWhile isSpecial).reverse := rfl
+  rw [hcn, canonicalName_split]
+  · congr 1
+    simp only [asciiLower, List.map_map]
+    apply List.map_congr_left
+    intro d _
+    exact asciiLowerChar_idem d
+  · intro c hc
+    simp only [asciiLower, List.mem_map, List.mem_filter] at hc
+    obtain ⟨d, ⟨_, hd⟩, rfl⟩ := hc
+    exact isSpecial_lower hsp d (by simpa using hd)
+  · intro c hc
+    exact mem_takeWhile_true isSpecial _ c (List.mem_reverse.1 hc)
 end C14
